@@ -49,6 +49,17 @@ def canon_vd(vd):
     )
 
 
+def _keep(world, obj, fn):
+    """Canonical outcome now; the result object is kept (shared world only) so
+    that the run can check at its end that it still reads the same - a result
+    that aliases shared state changes when a later operation runs."""
+    c = fn(obj)
+    kept = getattr(world, "kept", None)
+    if kept is not None:
+        kept.append((obj, fn, c))
+    return c
+
+
 def _doc(world, di, how):
     if how == "shared_data":
         return world.get("datas", di)
@@ -64,8 +75,8 @@ def do_filter(world, op):
     if how == "test_all":
         return ("bool", cond.test_all(world.get("docs", di)))
     if how == "data.filter":
-        return canon_fd(Data(world.get("docs", di)).filter(cond))
-    return canon_fd(cond.filter(_doc(world, di, how)))
+        return _keep(world, Data(world.get("docs", di)).filter(cond), canon_fd)
+    return _keep(world, cond.filter(_doc(world, di, how)), canon_fd)
 
 
 def do_get(world, op):
@@ -80,17 +91,17 @@ def do_get(world, op):
 
 def do_part_filter(world, op):
     _, qi, di, how = op
-    return canon_fd(world.get("parts", qi).filter(_doc(world, di, how)))
+    return _keep(world, world.get("parts", qi).filter(_doc(world, di, how)), canon_fd)
 
 
 def do_test(world, op):
     _, ri, di, how = op
-    return canon_rt(world.get("rules", ri).test(_doc(world, di, how)))
+    return _keep(world, world.get("rules", ri).test(_doc(world, di, how)), canon_rt)
 
 
 def do_validate(world, op):
     _, si, di, how = op
-    return canon_vd(world.get("schemas", si).validate(_doc(world, di, how)))
+    return _keep(world, world.get("schemas", si).validate(_doc(world, di, how)), canon_vd)
 
 
 READ_OPS = {
